@@ -578,6 +578,22 @@ def needed(term, p):
         ns = more
 
 
+def reachable(term, root):
+    """Definition ids reachable through references from `root` (EmitSchema!Closure); empty when the term has no such definition."""
+    S = {d["name"]: d["t"] for d in term["defs"]}
+    if root not in S:
+        return set()
+    ns = {root}
+    while True:
+        more = set(ns)
+        for n in ns:
+            if n in S:
+                more |= refs_of(S[n])
+        if more == ns:
+            return ns
+        ns = more
+
+
 def emit_doc(term, p):
     need = needed(term, p)
     fs = term["foreign"]
